@@ -111,7 +111,7 @@ reg("C01",
     "Tie to the code: end-to-end correspondence of `sample` (model vs implementation) on multi-loop/massive/non-trivial routings, normalisation oracle (40 digits), rng-entry agreement; "
     "supporting fixed-seed Monte Carlo against closed forms (tadpole, bubble, two-tadpole product under two routings; mean of jacobian*g = (pi/alpha)^(DL/2) for triangle, sunrise k1+-k2, "
     "double triangle, banana).",
-    "Cited, not formalised: Schwinger parametrisation (momentum integral = parametric integral) and that U_tr, V_tr are the MAXIMAL monomials of U and F/U (greedy optimality, C07). "
+    "Cited, not formalised: Schwinger parametrisation (momentum integral = parametric integral) and that V_tr is the MAXIMAL monomial of F/U (greedy optimality for the second Symanzik polynomial, C07; for U_tr it is proved: C07.uTrop_is_largest_monomial). "
     "Both removal facts (loop number drops by 0 or 1, spanning never gained) are theorems of the model and are also checked on the implementation's flags for every subset of every small "
     "multigraph in the C03 check. Exactness of the Gamma quantile is numerical (C12). Monte Carlo is a statistical supporting test (6 sigma + 0.5%), not a proof.",
     "Lean 4 theorems (partial for the property as a whole) + differential correspondence + exact/40-digit oracles + closed-form Monte Carlo support",
@@ -120,10 +120,12 @@ reg("C01",
 reg("C02",
     "PARTIAL/conditional. Lean (alpha:=R): a sum of non-negative monomials lies between its largest term and card x largest; "
     "with coefficients c_i >= c_min: c_min max <= sum <= (sum c_i) max; and, given U_tr<=U<=N U_tr and (c_min/N)V_tr<=V<=C V_tr, "
-    "N^(-D/2) C^(-dod) <= (U_tr/U)^(D/2)(V_tr/V)^dod <= (N/c_min)^dod (monotonicity of rpow; non-vacuity example). The premises "
-    "(U, F are the Symanzik sums; tropical values are the largest monomials) are the cited parts of C07-C09. On the real code the "
+    "N^(-D/2) C^(-dod) <= (U_tr/U)^(D/2)(V_tr/V)^dod <= (N/c_min)^dod (monotonicity of rpow; non-vacuity example). The premise on U is now a theorem "
+    "(C02U.lean: U_premises - for a successful run of the model's sampler U_tr <= U <= N_T U_tr with U the sum over the complements of spanning forests; ratio_bounds_U "
+    "leaves only the two premises on V), from C07.uTrop_is_largest_monomial; V_upper: V <= C_sum V_tr from C07.mass_terms_le + momentum_terms_le for F a non-negative combination of those monomials. "
+    "Still cited: F is that combination (2-forest formula, C09) and, for the lower premise, attainment of u_trop*v_trop by a monomial of F when spanning is lost at a massless edge. On the real code the "
     "bounds and the ratio interval are checked with exact N_T, c_min, C_sum at uniform, corner and rare-sector points (kappa<=1e8).",
-    "Conditional on the matrix-tree / 2-forest identities and greedy optimality (cited).",
+    "Conditional on the 2-forest identity and greedy optimality for V (cited); that the cotree sum is the returned u is C08.",
     "Lean 4 conditional theorem + exact rational oracle on the real code",
     "DESIGN.md §3 C02")
 
@@ -134,10 +136,18 @@ reg("C07",
     "a chain g_k = g_(k-1) minus s_k with pairwise distinct edges, the k-th removed edge holding kappa_k at the end. alpha:=R - "
     "sector_formula: the pre-rescaling parameter of s_k is prod_(j<k) xi_j^(1/omega(g_j)) and the used one is that times the common "
     "factor; the common rescaling makes (s^L U_tr)^(D/2)(s V_tr)^dod = 1. "
-    "That the logged tropical values are the MAXIMAL monomials rests on greedy optimality on the cographic matroid (cited): decided "
-    "on the real code by brute force over all spanning trees / F monomials (exact), together with the sector formula (mpmath) and the "
-    "normalisation.",
-    "Greedy optimality cited; powf accuracy measured.",
+    "u_trop IS the largest monomial of U - proved (C07Greedy.lean, Proofs/LoopMono.lean, no matroid library): a removal lowers get_loop_number exactly when the "
+    "removed edge closes a cycle with the rest (loopNumber_drop_iff), hence bridges stay bridges in subsets (bridge_mono); for every set function with these properties "
+    "the edges at whose removal the loop number drops form a cotree = complement of a maximal acyclic subset (greedySet_cotree, cotree_iff_maximal_forest) and every other "
+    "cotree monomial is <= their product when the parameters do not increase along the removal order (greedy_max, exchange argument); on the sampler: "
+    "uTrop_is_largest_monomial (successful run, xi in (0,1], omega > 0, table loop numbers = those of the graph). "
+    "Second tropical value (C07Major.lean, C07Forest.lean): u_trop*v_trop of the sampler is the greedy vertex of the generalised permutahedron with z = loops + [mass-momentum spanning] "
+    "(uv_trop; majorization + polytope_max: every exponent vector satisfying the polytope inequalities along the removal order has monomial <= u_trop*v_trop), and EVERY monomial of F "
+    "satisfies them: mass terms x_e0 prod_C x (mass_terms_le) and momentum terms = complements of spanning 2-forests separating two externals (momentum_terms_le, via loopNumber_drop_iff "
+    "and a connectivity-transfer argument); attained when spanning is lost at a massive edge (uv_decomposition); all premises hold for tables with the flags of preEntry (premises_of_preEntry). "
+    "Cited: attainment by a monomial of F when spanning is lost at a massless edge (Schultka 2018; Borinsky 2020 Thm 8.1). Both tropical values are decided on the real code by brute force over all spanning trees / F monomials (exact), "
+    "together with the sector formula (mpmath) and the normalisation.",
+    "Attainment of u_trop*v_trop by a monomial of F in the massless case cited; that 2-forests with separated externals are F's momentum terms is C09 (cited); powf accuracy measured.",
     "Lean 4 theorems (law-free + real) + differential correspondence on the debug log + brute-force exact oracle",
     "DESIGN.md §3 C07")
 
